@@ -75,7 +75,7 @@ def _fits(scheme, over, lens):
     n = sum(lens)
     if scheme == "CGKO06.SSE1":
         s = (over or {}).get("param_s", 16)
-        return n <= s and len(lens) <= 4
+        return n + 1 < s and len(lens) <= 4      # psi addresses 1..N and the pointer N+1 on log2(s) bits
     if scheme == "CJJ14.Pi2Lev":
         c = {"param_B": 2, "param_b": 2, "param_B_prime": 2, "param_b_prime": 2}
         c.update({k: v for k, v in (over or {}).items() if k in c})
